@@ -6,7 +6,8 @@
    (C19/Model.v). A schedule [es] is ANY list of events: API calls from new goroutines in any
    order, the threads' own steps in any interleaving, context cancellations, the issuer's answers,
    clock advances of any size, timers delivered arbitrarily late, trust-anchor changes. *)
-From Kit Require Import Lib.Base C19.Model C19.Spec C19.Check C19.Proofs_Rot C19.Proofs_Oracle.
+From Kit Require Import Lib.Base C19.Model C19.Spec C19.Check C19.Proofs_Rot C19.Proofs_Oracle
+  C19.Proofs_Refine C19.Proofs_Punctual.
 From Kit Require C19.Ready C19.Proofs_Ready.
 
 (* The fixed code cannot wedge, whatever the order of the first calls and however the threads
@@ -212,3 +213,86 @@ Theorem C19_conc_oracle_sound : forall script nreq ready_ok readers,
   conc_oracle script nreq ready_ok readers = true <-> conc_spec script nreq ready_ok readers.
 Proof. exact conc_oracle_sound. Qed.
 Print Assumptions C19_conc_oracle_sound.
+
+(* ------------------------------------------------------------------------------------- *)
+(* Model meets spec at the level of whole traces.                                           *)
+
+(* The fixed readiness model MEETS the declarative readiness spec on every script the driver can
+   perform (any number of Run / Ready / GetX509SVID calls in any order, contexts cancelled at any
+   time, the initial fetch finishing - with success or failure - at any later point or never):
+   driving the model with the script and letting the threads run to quiescence after every action
+   gives, at every point, exactly what the property demands - Run has reached the issuer once it
+   was called; before the initial fetch finishes nothing has returned except a Ready whose context
+   was cancelled; once it has finished every call has returned, GetX509SVID with that SVID or with
+   the error. The oracle that judges the implementation is the one evaluated here, and [wf_acts]
+   is checked on every script the harness prints. *)
+Theorem C19_ready_model_meets_spec : forall acts,
+  wf_acts [] acts = true ->
+  ready_oracle acts (ready_drive Fixed Ready.init acts) = true.
+Proof. exact ready_model_meets_spec. Qed.
+Print Assumptions C19_ready_model_meets_spec.
+
+(* ... in the words of the declarative spec; in particular the driver is never stopped: the initial
+   fetch can always be let finish, because Run always gets as far as the issuer. *)
+Theorem C19_ready_model_meets_spec_prop : forall acts,
+  wf_acts [] acts = true ->
+  ready_spec acts (ready_drive Fixed Ready.init acts) /\
+  length (ready_drive Fixed Ready.init acts) = length acts.
+Proof. exact ready_model_meets_spec_prop. Qed.
+Print Assumptions C19_ready_model_meets_spec_prop.
+
+(* The model of the code before the fix does not meet it (GetX509SVID, then Run). *)
+Theorem C19_ready_model_original_refuted : exists acts,
+  wf_acts [] acts = true /\ ready_oracle acts (ready_drive Original Ready.init acts) = false.
+Proof. exact ready_model_original_refuted. Qed.
+Print Assumptions C19_ready_model_original_refuted.
+
+(* The scheduler with punctual timers used by the correspondence check terminates within its fuel
+   for ANY state and ANY script: it ends in a state where the loop is parked (no issuer answer
+   owed, no timer due, not cancelled-but-still-waiting), by a run of the event system that does
+   not move the clock and consumes a prefix of the script. *)
+Theorem C19_settle_parks : forall s script,
+  let '(s', script') := settle (settle_fuel script) s script in
+  parked s' /\ s_now s' = s_now s /\ (exists es, run s es = Some s') /\ (exists k, script' = skipn k script).
+Proof. exact settle_parks. Qed.
+Print Assumptions C19_settle_parks.
+
+(* "A renewal is requested no later than one minute after half-life", with timers that fire on
+   time, as a statement about whole runs: at EVERY observation point of EVERY punctual run (any
+   initial clock, any issuer script incl. certificates already past half-life or not yet valid,
+   any clock steps, trust-anchor changes, cancellation) the loop is parked; while it waits on its
+   main timer the clock has not reached the half-life of the served certificate; while it waits to
+   retry, fewer than 10 s have passed since the failure. So no observation point lies at or after
+   the instant a renewal or a retry falls due without that request having been made. *)
+Theorem C19_punctual_requests_on_time : forall t0 d script ops x,
+  In x (rot_states (init t0 d) script (ERun :: map op_event ops)) ->
+  parked x /\
+  (forall dl, s_pc x = PArmed dl KMain ->
+      exists v, s_cur x = Some v /\
+                s_renew x = renewal_time (c_nb (sv_cert v)) (c_na (sv_cert v)) /\
+                s_now x < s_renew x) /\
+  (forall dl, s_pc x = PArmed dl KRetry -> s_now x < s_at x + ten_s).
+Proof. exact punctual_requests_on_time. Qed.
+Print Assumptions C19_punctual_requests_on_time.
+
+(* [rot_states] are the states behind the observations the check compares with the implementation. *)
+Theorem C19_rot_model_states : forall t0 d script ops,
+  rot_model t0 d script ops =
+  observe_chain (init t0 d) (rot_states (init t0 d) script (ERun :: map op_event ops)).
+Proof. exact rot_model_states. Qed.
+Print Assumptions C19_rot_model_states.
+
+(* In every punctual run, at every observation point, the k-th issuer request of the history was
+   answered by the k-th element of the script (an exhausted script answers with failures), a
+   success with the certificate issued for THAT request's key and request instant. With
+   C19_serves_latest: the SVID served at a point is the certificate the script prescribes for the
+   newest successful request made so far, with the key generated for that request. *)
+Theorem C19_punctual_history_follows_script : forall t0 d script ops x,
+  In x (rot_states (init t0 d) script (ERun :: map op_event ops)) ->
+  forall k r, nth_error (rev (s_log x)) k = Some r ->
+    match outcome_at script k with
+    | OOk dnb dna => fr_ok r = Some (issue (fr_key r) (fr_req r) dnb dna)
+    | OFail => fr_ok r = None
+    end.
+Proof. exact punctual_history_follows_script. Qed.
+Print Assumptions C19_punctual_history_follows_script.
